@@ -6,6 +6,18 @@
 #ifndef VF_CASE
 #define VF_CASE 0
 #endif
+#ifndef VF_E
+#define VF_E 1
+#endif
+#ifndef VF_I
+#define VF_I 0
+#endif
+#ifndef VF_O
+#define VF_O 0
+#endif
+#ifndef VF_DEPS
+#define VF_DEPS 0
+#endif
 #ifndef VF_KIND
 #define VF_KIND 0
 #endif
@@ -24,6 +36,59 @@ static void pickStat(int i) {
 static FileInfo infoOf(int i) { FileInfo f; memset(&f, 0, sizeof f); if (g_rc[i] != 0) return f; f.device = g_st[i].st_dev; f.inode = g_st[i].st_ino; f.mode = g_st[i].st_mode; f.size = g_st[i].st_size; f.modTime.seconds = g_st[i].st_mtim.tv_sec; f.modTime.nanoseconds = g_st[i].st_mtim.tv_nsec;
   if (f.isMissing()) f.modTime.nanoseconds = 1; return f; }
 static bool same(const FileInfo& a, const FileInfo& b) { return a.device == b.device && a.inode == b.inode && a.size == b.size && a.modTime.seconds == b.modTime.seconds && a.modTime.nanoseconds == b.modTime.nanoseconds; }
+
+// ---- engine side of a task, recorded (TaskInterface is the engine's API; the engine itself is C01-C06)
+struct Req { uint8_t kind; uint8_t k0, k1; uint64_t klen; uint64_t id; };     // kind: 1 request, 2 mustFollow, 3 discoveredDependency
+static Req g_req[8]; static unsigned g_nreq = 0;
+static unsigned g_completes = 0, g_spawns = 0, g_failedInc = 0, g_missingReports = 0, g_errors = 0; static bool g_force = false;
+static unsigned char g_val[sizeof(BuildValue) + 2 * sizeof(FileInfo)]; static uint64_t g_valLen = 0;
+static void rec(uint8_t kind, const core::KeyType* k, uint64_t id) { if (g_nreq < 8) { Req& r = g_req[g_nreq]; r.kind = kind; r.klen = k->size(); r.k0 = k->size() > 0 ? k->data()[0] : 0; r.k1 = k->size() > 1 ? k->data()[1] : 0; r.id = id; } g_nreq++; }
+extern "C" void stub_request(core::TaskInterface*, const core::KeyType* k, uintptr_t id) { rec(1, k, id); }
+extern "C" void stub_mustFollow(core::TaskInterface*, const core::KeyType* k) { rec(2, k, 0); }
+extern "C" void stub_discovered(core::TaskInterface*, const core::KeyType* k) { rec(3, k, 0); }
+extern "C" void stub_complete(core::TaskInterface*, core::ValueType* v, bool force) { g_completes++; g_force = force; g_valLen = v->size(); for (size_t i = 0; i < v->size() && i < sizeof g_val; i++) g_val[i] = (*v)[i]; }
+static bool g_runJobs = false, g_cancelInQueue = false; static BuildContext* g_ctx = nullptr;
+struct HQCtx : public basic::QueueJobContext { unsigned laneID() const override { return 0; } };
+extern "C" void stub_spawn_job(core::TaskInterface*, basic::QueueJob* job, int) {
+  g_spawns++;
+  if (!g_runJobs) return;
+  // the execution queue: the job runs later, on a lane; cancellation may arrive while it waits.  (It is run from inside this
+  // call because the QueueJob is a temporary of the caller; moving it elsewhere costs symex the identity of the captured pointers.)
+  if (g_cancelInQueue) g_ctx->isCancelled = true;
+  HQCtx& q = *new HQCtx;
+  job->execute(&q);
+}
+static int g_procStatus = -2; static llvm::Optional<basic::ProcessCompletionFn>* g_fn = nullptr; static unsigned g_procSpawns = 0; static uint64_t g_argc = 0; static char g_arg2 = 0;
+extern "C" void stub_spawn_proc(core::TaskInterface*, basic::QueueJobContext*, const StringRef* argv, size_t argc, const void*, size_t, basic::ProcessAttributes attrs, llvm::Optional<basic::ProcessCompletionFn>* fn, basic::ProcessDelegate*) {
+  g_procSpawns++; g_fn = fn; g_argc = argc; g_arg2 = argc > 2 && argv[2].size() > 0 ? argv[2][0] : 0;
+  // the process ends in an arbitrary way; its completion handler runs (Optional<fn> is a temporary of the caller: call it now)
+  basic::ProcessResult r; int st = (int)nondet_u8(); VF_ASSUME(st < 5); r.status = (basic::ProcessStatus)(st - 1); r.exitCode = (int)nondet_u32(); g_procStatus = st - 1;
+  if (fn->hasValue()) (**fn)(r);
+}
+extern "C" void stub_reportMissingInput(BuildContext*, const ninja::Node*) { g_missingReports++; }
+extern "C" void stub_incrementFailed(BuildContext*) { g_failedInc++; }
+extern "C" void stub_emitError(BuildContext*, const char*) { g_errors++; }
+static unsigned g_descriptions = 0;
+extern "C" void stub_writeDescription(BuildContext*, ninja::Command*) { g_descriptions++; }
+extern "C" void stub_emitStatus(BuildContext*, const char*) {}
+extern "C" void stub_emitStatus2(BuildContext*, const char*) {}
+static BuildContext* mkContext(ninja::Rule* phony) {
+  BuildContext* c = (BuildContext*)calloc(1, sizeof(BuildContext));
+  ninja::Manifest* m = (ninja::Manifest*)calloc(1, sizeof(ninja::Manifest));
+  m->phonyRule = phony; m->consolePool = (ninja::Pool*)calloc(1, 64);
+  new (&c->manifest) std::unique_ptr<ninja::Manifest>(m);
+  c->quiet = true; c->numFailedCommandsToTolerate = 1;
+  return c;
+}
+static FileInfo anyInfo() { FileInfo f; memset(&f, 0, sizeof f); f.device = nondet_u64(); f.inode = nondet_u64(); f.mode = nondet_u64(); f.size = nondet_u64(); f.modTime.seconds = nondet_u64(); f.modTime.nanoseconds = nondet_u64(); return f; }
+static bool tsLess(const FileTimestamp& a, const FileTimestamp& b) { return a.seconds < b.seconds || (a.seconds == b.seconds && a.nanoseconds < b.nanoseconds); }
+
+// depfile environment: the file exists and holds one rule with one dependency (parser contract as in C11-D3 / C19-H2)
+struct HBuf : public llvm::MemoryBuffer { HBuf() { BufferStart = ""; BufferEnd = BufferStart; } BufferKind getBufferKind() const override { return MemoryBuffer_Malloc; } };
+static unsigned g_reads = 0, g_parses = 0, g_normalizes = 0; static char g_dep[2]; static bool g_normOK = true;
+extern "C" void stub_readFileContents(llvm::Expected<std::unique_ptr<llvm::MemoryBuffer>>* out, const char*, size_t) { g_reads++; new (out) llvm::Expected<std::unique_ptr<llvm::MemoryBuffer>>(std::unique_ptr<llvm::MemoryBuffer>(new HBuf)); }
+extern "C" void stub_parse(core::MakefileDepsParser* p) { g_parses++; p->actions.actOnRuleStart(StringRef("o", 1), StringRef("o", 1)); p->actions.actOnRuleDependency(StringRef(g_dep, 2), StringRef(g_dep, 2)); p->actions.actOnRuleEnd(); }
+extern "C" bool stub_normalize_path(const char*, size_t, llvm::SmallVectorImpl<char>* tmp) { g_normalizes++; return g_normOK; }      // contract: an absolute, already normal path is left as it is
 extern "C" void harness_ninja(void) {
   const unsigned K = VF_K;
   for (unsigned i = 0; i < K; i++) pickStat(i);
@@ -47,7 +112,7 @@ extern "C" void harness_ninja(void) {
   bool expect = kind == 0 && (gen || c1 == c2);
   for (unsigned i = 0; i < K; i++) { FileInfo cur = infoOf(i); if (g_rc[i] != 0 || !same(stored[i], cur)) expect = false; }
   VF_ASSERT(valid == expect, "a stored command result is valid exactly when the command succeeded, its command line is unchanged (generator rules excepted) and every output exists with unchanged file information");
-#else
+#elif VF_CASE == 1
   ninja::Node& node = *new ninja::Node("o0", "o0");
   const uint8_t kind = VF_KIND;
   BuildValue& v = *new BuildValue(kind == 0 ? BuildValue::makeExistingInput(stored[0]) : BuildValue::makeMissingInput());
@@ -56,6 +121,137 @@ extern "C" void harness_ninja(void) {
   vf_observe(valid);
   FileInfo cur = infoOf(0);
   VF_ASSERT(valid == (kind == 0 && g_rc[0] == 0 && same(stored[0], cur)), "a stored input value is valid exactly when the file existed then, exists now, and its information is unchanged");
+#elif VF_CASE == 2
+  // ---- start(): explicit and implicit inputs are requested (ids in declaration order), order-only inputs only ordered
+  const unsigned E = VF_E, I = VF_I, O = VF_O, NIN = E + I + O;
+  ninja::Rule& rule = *new ninja::Rule("r"); ninja::Rule& phony = *new ninja::Rule("phony");
+  bool isPhony = nondet_bool();
+  BuildContext& ctx = *mkContext(isPhony ? &rule : &phony); ctx.strict = nondet_bool();
+  std::vector<ninja::Node*>& outs = *new std::vector<ninja::Node*>; outs.push_back(new ninja::Node("o0", "o0"));
+  static const char* names[4] = { "a0", "b1", "c2", "d3" };
+  std::vector<ninja::Node*>& ins = *new std::vector<ninja::Node*>; ins.reserve(4);
+  uint8_t cyc = nondet_u8();                                   // which input (if any) is also the command's output
+  for (unsigned i = 0; i < NIN; i++) ins.push_back(cyc == i ? outs[0] : new ninja::Node(names[i], names[i]));
+  ninja::Command& cmd = *new ninja::Command(&rule, outs, ins, E, I);
+  core::Task* task = buildCommand(ctx, &cmd);
+  core::TaskInterface ti(nullptr, nullptr);
+  task->start(ti);
+  vf_observe(g_nreq);
+  unsigned n = 0;
+  for (unsigned i = 0; i < NIN; i++) {
+    bool dropped = !ctx.strict && isPhony && cyc == i;             // CMake's self-referential phony edges, tolerated in non-strict mode
+    if (dropped) continue;
+    VF_ASSERT(n < g_nreq && n < 8, "every declared input is handed to the engine");
+    const Req& r = g_req[n++];
+    const char* nm = cyc == i ? "o0" : names[i];
+    VF_ASSERT(r.klen == 2 && r.k0 == (uint8_t)nm[0] && r.k1 == (uint8_t)nm[1], "inputs are handed to the engine in declaration order, by canonical path");
+    if (i < E + I) VF_ASSERT(r.kind == 1 && r.id == i, "explicit and implicit inputs are requested as value dependencies (they trigger rebuilds), with their position as input id");
+    else VF_ASSERT(r.kind == 2, "order-only inputs are requested as must-follow (ordering without triggering a rebuild)");
+  }
+  VF_ASSERT(g_nreq == n && g_completes == 0 && g_spawns == 0, "start() does nothing else");
+#elif VF_CASE == 3
+  // ---- provideValue* / providePriorValue / inputsAvailable: run, bring up to date without running, or skip
+  const unsigned E = VF_E;
+  ninja::Rule& rule = *new ninja::Rule("r"); ninja::Rule& phony = *new ninja::Rule("phony");
+  BuildContext& ctx = *mkContext(&phony); ctx.strict = nondet_bool(); ctx.simulate = nondet_bool(); bool cancelled = nondet_bool(); ctx.isCancelled = cancelled;
+  std::vector<ninja::Node*>& outs = *new std::vector<ninja::Node*>; outs.reserve(2);
+  outs.push_back(new ninja::Node("o0", "o0")); if (K > 1) outs.push_back(new ninja::Node("o1", "o1"));
+  std::vector<ninja::Node*>& ins = *new std::vector<ninja::Node*>; ins.reserve(2);
+  ins.push_back(new ninja::Node("a0", "a0")); if (E > 1) ins.push_back(new ninja::Node("b1", "b1"));
+  ninja::Command& cmd = *new ninja::Command(&rule, outs, ins, E, 0);
+  char c1 = (char)nondet_u8(), c2 = (char)nondet_u8(); bool gen = nondet_bool();
+  cmd.setCommandString(llvm::StringRef(&c1, 1)); cmd.setGeneratorFlag(gen); cmd.setDepsStyle(VF_DEPS ? ninja::Command::DepsStyleKind::GCC : ninja::Command::DepsStyleKind::None);
+  core::Task* task = buildCommand(ctx, &cmd);
+  core::TaskInterface ti(nullptr, nullptr);
+  // the stored value of the previous build, if any: any kind, any hash
+  bool hasPrior = nondet_bool(); uint8_t pk = nondet_u8(); VF_ASSUME(pk < 5);
+  if (hasPrior) {
+    BuildValue& pv = *new BuildValue(BuildValue::makeSuccessfulCommand(anyInfo(), CommandSignature(llvm::StringRef(&c2, 1)))); pv.kind = (BuildValue::BuildValueKind)pk;
+    core::ValueType& pd = *new core::ValueType(pv.toValue());
+    task->providePriorValue(ti, pd);
+  }
+  task->start(ti);
+  uint8_t ik[2]; FileInfo ii[2];
+  for (unsigned i = 0; i < E; i++) {
+    ik[i] = nondet_u8(); VF_ASSUME(ik[i] < 5); ii[i] = anyInfo(); if (nondet_bool()) memset(&ii[i], 0, sizeof(FileInfo));      // (a successful command may have left no file)
+    BuildValue& v = *new BuildValue(BuildValue::makeExistingInput(ii[i])); v.kind = (BuildValue::BuildValueKind)ik[i];
+    core::ValueType& d = *new core::ValueType(v.toValue());
+    core::KeyType& key = *new core::KeyType(ins[i]->getCanonicalPath());
+    task->provideValue(ti, i, key, d);
+  }
+  unsigned before = g_nreq;
+  task->inputsAvailable(ti);
+  vf_observe(g_completes); vf_observe(g_spawns); vf_observe(g_valLen);
+  bool anyBad = false, anyMissingInput = false, goodButGone = false; FileTimestamp newest = { 0, 0 };
+  for (unsigned i = 0; i < E; i++) {
+    bool good = ik[i] == 0 || ik[i] == 2;
+    if (!good) { anyBad = true; if (ik[i] == 1) anyMissingInput = true; continue; }
+    if (ii[i].isMissing()) goodButGone = true; else if (tsLess(newest, ii[i].modTime)) newest = ii[i].modTime;
+  }
+  bool hashSame = hasPrior && pk == 2 && c1 == c2;
+  bool outsOK = true;
+  for (unsigned i = 0; i < K; i++) { FileInfo cur = infoOf(i); if (cur.isMissing()) outsOK = false; else if (ctx.strict ? !tsLess(newest, cur.modTime) : tsLess(cur.modTime, newest)) outsOK = false; }
+  VF_ASSERT(g_completes + g_spawns == 1 && g_nreq == before, "the command task ends in exactly one way: one result, or one job to run");
+  BuildValue::BuildValueKind rk; memcpy(&rk, g_val, sizeof rk);
+  bool updated = g_completes == 1 && rk == BuildValue::BuildValueKind::SuccessfulCommand;
+  if (cancelled) VF_ASSERT(g_spawns == 0 && rk == BuildValue::BuildValueKind::SkippedCommand, "a cancelled build starts nothing");
+  if (anyBad) VF_ASSERT(g_spawns == 0, "a command with a failed, skipped or missing input is not run (a failing command stops its dependents)");
+  if (anyBad && !updated) VF_ASSERT(rk == BuildValue::BuildValueKind::SkippedCommand, "...and records that it was skipped, so that it is retried next time");
+  if (!cancelled && !updated && !ctx.simulate && anyMissingInput) VF_ASSERT(g_failedInc == 1 && g_errors == 1, "a missing input is reported and counts as a failure");
+  if (!cancelled && !anyBad && !ctx.simulate && !gen && !hashSame) VF_ASSERT(g_spawns == 1, "a command whose command line changed (or that has no stored result) is run again");
+  if (!cancelled && !anyBad && !ctx.simulate && (VF_DEPS || goodButGone || !outsOK)) VF_ASSERT(g_spawns == 1, "a command with an output missing or older than an input, or with discovered dependencies, is run");
+  if (g_spawns == 1) VF_WITNESS_ALSO("command queued to run");
+  if (updated) {
+#if !VF_DEPS
+    VF_WITNESS_ALSO("brought up to date without running");
+#endif
+    VF_ASSERT(!cancelled && !VF_DEPS && (gen || hashSame) && !goodButGone && outsOK, "a command is brought up to date without running only if its command line is unchanged, every output exists and none is older than an input");
+    VF_ASSERT(!g_force && g_valLen == (K == 1 ? sizeof(BuildValue) : sizeof(BuildValue) + K * sizeof(FileInfo)), "the recorded result has the shape of a command result");
+    alignas(8) static unsigned char rvb[sizeof(BuildValue)]; memcpy(rvb, g_val, sizeof(BuildValue)); const BuildValue& rv = *(const BuildValue*)rvb;   // (no BuildValue object: its destructor would free the sender's array)
+    VF_ASSERT(rv.numOutputInfos == K && rv.commandHash == CommandSignature(llvm::StringRef(&c1, 1)), "the recorded result carries the current command-line hash and one file record per output");
+    for (unsigned i = 0; i < K; i++) { FileInfo cur = infoOf(i); const FileInfo* st = K == 1 ? &rv.valueData.asOutputInfo : (const FileInfo*)(g_val + sizeof(BuildValue)) + i; VF_ASSERT(same(*st, cur) && st->mode == cur.mode, "the recorded result describes the outputs as they are now"); }
+  }
+  if (!cancelled && !anyBad && !VF_DEPS && (gen || hashSame) && !goodButGone && outsOK) VF_ASSERT(updated, "an up-to-date command (unchanged command line, outputs not older than any input) is not run again");
+#elif VF_CASE == 4
+  // ---- the job a command task queues: run the shell, then record failure, or the outputs as they are now (restat) and the discovered dependencies
+  ninja::Rule& rule = *new ninja::Rule("r"); ninja::Rule& phony = *new ninja::Rule("phony");
+  BuildContext& ctx = *mkContext(&phony); bool cancelled = nondet_bool(); ctx.strict = nondet_bool();
+  std::vector<ninja::Node*>& outs = *new std::vector<ninja::Node*>; outs.reserve(2);
+  outs.push_back(new ninja::Node("o0", "o0")); if (K > 1) outs.push_back(new ninja::Node("o1", "o1"));
+  std::vector<ninja::Node*>& ins = *new std::vector<ninja::Node*>; ins.reserve(2);
+  ins.push_back(new ninja::Node("/e", "/e")); ins.push_back(new ninja::Node("/o", "/o"));                 // one explicit, one order-only input
+  ninja::Command& cmd = *new ninja::Command(&rule, outs, ins, 1, 0);
+  char c1 = (char)nondet_u8(); bool restat = nondet_bool();
+  cmd.setCommandString(llvm::StringRef(&c1, 1)); cmd.setRestatFlag(restat); cmd.setDepsStyle(VF_DEPS ? ninja::Command::DepsStyleKind::GCC : ninja::Command::DepsStyleKind::None);
+  if (VF_DEPS) { cmd.setDepsFile("d"); g_dep[0] = '/'; g_dep[1] = (char)nondet_u8(); g_normOK = nondet_bool(); }
+  core::Task* task = buildCommand(ctx, &cmd);
+  core::TaskInterface ti(nullptr, nullptr);
+  task->start(ti);
+  { FileInfo fi = anyInfo(); BuildValue& v = *new BuildValue(BuildValue::makeExistingInput(fi)); core::ValueType& d = *new core::ValueType(v.toValue()); core::KeyType& key = *new core::KeyType(ins[0]->getCanonicalPath()); task->provideValue(ti, 0, key, d); }
+  ctx.isCancelled = false; g_ctx = &ctx; g_runJobs = true; g_cancelInQueue = cancelled;      // cancellation may arrive while the job waits in the queue
+  unsigned before = g_nreq;
+  task->inputsAvailable(ti);                                   // no stored result: the command has to run
+  VF_ASSERT(g_spawns == 1, "a command with no stored result is queued to run");
+  vf_observe(g_completes); vf_observe(g_procSpawns); vf_observe(g_force);
+  BuildValue::BuildValueKind rk; memcpy(&rk, g_val, sizeof rk);
+  VF_ASSERT(g_completes == 1, "the job reports exactly one result");
+  if (cancelled) { VF_ASSERT(g_procSpawns == 0 && rk == BuildValue::BuildValueKind::SkippedCommand && g_nreq == before, "after cancellation no new process is started; the command is recorded as skipped"); }
+  else {
+    VF_ASSERT(g_procSpawns == 1 && g_argc == 3 && g_arg2 == c1, "the command line is handed to the shell as it is");
+    bool depsFail = VF_DEPS && false;
+    if (g_procStatus != 0) VF_ASSERT(rk == BuildValue::BuildValueKind::FailedCommand && g_force && g_nreq == before, "a command that did not succeed is recorded as failed (never as up to date), and the change is propagated");
+    else {
+      VF_ASSERT(rk == BuildValue::BuildValueKind::SuccessfulCommand && g_force == !restat, "a successful command records a result; dependents are forced to rebuild unless the rule is 'restat'");
+      alignas(8) static unsigned char rvb[sizeof(BuildValue)]; memcpy(rvb, g_val, sizeof(BuildValue)); const BuildValue& rv = *(const BuildValue*)rvb;
+      VF_ASSERT(g_valLen == (K == 1 ? sizeof(BuildValue) : sizeof(BuildValue) + K * sizeof(FileInfo)) && rv.numOutputInfos == K && rv.commandHash == CommandSignature(llvm::StringRef(&c1, 1)), "the result carries the command-line hash and one file record per output");
+      for (unsigned i = 0; i < K; i++) { FileInfo cur = infoOf(i); const FileInfo* st = K == 1 ? &rv.valueData.asOutputInfo : (const FileInfo*)(g_val + sizeof(BuildValue)) + i; VF_ASSERT(same(*st, cur) && st->mode == cur.mode, "the result describes each output as it is after the command ran"); }
+      if (VF_DEPS) {
+        VF_ASSERT(g_reads == 1 && g_parses == 1 && g_normalizes == 1, "the dependency file the command wrote is read");
+        if (g_normOK) { VF_ASSERT(g_nreq == before + 1 && g_req[before].kind == 3 && g_req[before].klen == 2 && g_req[before].k0 == '/' && g_req[before].k1 == (uint8_t)g_dep[1], "every path the dependency file names is registered with the engine as a discovered dependency (also one that is a declared or order-only input)"); VF_WITNESS_ALSO("discovered dependency registered"); }
+        else VF_ASSERT(g_nreq == before, "a path that cannot be normalised is not registered");
+      } else VF_ASSERT(g_nreq == before && g_reads == 0, "no dependency file is read for a command without one");
+    }
+  }
 #endif
   VF_WITNESS();
 }
